@@ -107,7 +107,7 @@ func runC12(c *Ctx) {
 		if flow.IsNilConst(errv) {
 			// success: only via the errc (non-timer) case
 			okCase := false
-			if rl.idx != nil {
+			if rl.idx != nil || rl.waitCall != nil {
 				for k := range rl.sel.States {
 					if k == rl.timerK {
 						continue
@@ -389,9 +389,10 @@ func (c *Ctx) handlerHygiene(rule string) {
 	r := c.R
 	n := 0
 	for _, f := range c.P.LibraryFuncs() {
-		if pkgOf(f).Path() != pkgSM || f.Parent() == nil {
+		if pkgOf(f).Path() != pkgSM || f.Synthetic != "" {
 			continue
 		}
+		// handlers: closures and named functions / methods with the handler signature
 		if !isHandlerSig(types.NewSignatureType(nil, nil, nil, f.Signature.Params(), f.Signature.Results(), false)) {
 			continue
 		}
